@@ -591,7 +591,8 @@ def shards(tier):
         for i in range(len(ITEMS)):
             for j in range(len(ITEMS)):
                 out.append({"part": "lists", "n": [4], "prefix": [i, j]})
-    return out
+    from mc import harness
+    return harness.with_hash_seeds(out, tier, lambda sh: sh["part"] == "lists" and sh["n"] == [0, 1, 2])
 
 
 def run_shard(shard, rec):
